@@ -192,6 +192,10 @@ pub fn install_panic_hook() {
     }));
 }
 
+pub fn take_last_panic() -> Option<String> {
+    LAST_PANIC.lock().unwrap_or_else(|e| e.into_inner()).take()
+}
+
 /// Ok(value) or Err("file:line message") when `f` panicked
 pub fn guarded<T>(f: impl FnOnce() -> T + std::panic::UnwindSafe) -> Result<T, String> {
     match std::panic::catch_unwind(f) {
@@ -286,6 +290,8 @@ pub struct Report {
     pub disagreements_checked: u64,
     pub notes: Vec<String>,
     pub findings_seen: BTreeSet<String>,
+    /// failures that no known-finding matcher recognised (for early exit once a verdict is clear)
+    pub unnamed_failures: u64,
 }
 
 pub fn fnv64(s: &[u8]) -> u64 {
@@ -316,7 +322,12 @@ impl Report {
             disagreements_checked: 0,
             notes: vec![],
             findings_seen: BTreeSet::new(),
+            unnamed_failures: 0,
         }
+    }
+    /// enough unexplained failures have been collected: stop generating (and shrinking) more
+    pub fn verdict_clear(&self) -> bool {
+        self.unnamed_failures >= 12
     }
     pub fn thorough(&self) -> bool {
         self.tier == "thorough"
@@ -361,6 +372,9 @@ impl Report {
             .iter()
             .filter(|f| f.kind == kind && f.finding.as_deref() == finding)
             .count();
+        if finding.is_none() {
+            self.unnamed_failures += 1;
+        }
         if n < 40 {
             self.failures.push(Failure {
                 kind: kind.to_string(),
